@@ -34,16 +34,31 @@ pub fn build_local_stat_symbol(
         let decl = builder.get_decl(&decl_id)?;
         let typ = builder.get_type(decl_id.into());
         let desc = builder.get_symbol_kind_and_detail(Some(&typ));
+        let value_expr = local_values.get(index).cloned();
         let range = if simple_local {
             local_stat.get_range()
         } else {
-            decl.get_range()
+            // the symbols of the value (closure, table fields) become children of this symbol:
+            // its range has to cover the value as well
+            match &value_expr {
+                Some(value) => decl.get_range().cover(value.get_range()),
+                None => decl.get_range(),
+            }
         };
 
-        let symbol = LuaSymbol::new(decl.get_name().to_string(), desc.1, desc.0, range);
+        let symbol = if simple_local {
+            LuaSymbol::new(decl.get_name().to_string(), desc.1, desc.0, range)
+        } else {
+            LuaSymbol::with_selection_range(
+                decl.get_name().to_string(),
+                desc.1,
+                desc.0,
+                range,
+                decl.get_range(),
+            )
+        };
         let symbol_id =
             builder.add_node_symbol(local_name.syntax().clone(), symbol, Some(parent_id));
-        let value_expr = local_values.get(index).cloned();
         bindings.push(SymbolBinding {
             symbol_id,
             value_expr,
@@ -69,17 +84,31 @@ pub fn build_assign_stat_symbol(
             Some(decl) => decl,
             None => continue,
         };
+        let value_expr = exprs.get(index).cloned();
         let range = if simple_var {
             assign_stat.get_range()
         } else {
-            decl.get_range()
+            // see build_local_stat_symbol: the value's symbols are children of this symbol
+            match &value_expr {
+                Some(value) => decl.get_range().cover(value.get_range()),
+                None => decl.get_range(),
+            }
         };
         let typ = builder.get_type(decl_id.into());
         let desc = builder.get_symbol_kind_and_detail(Some(&typ));
-        let symbol = LuaSymbol::new(decl.get_name().to_string(), desc.1, desc.0, range);
+        let symbol = if simple_var {
+            LuaSymbol::new(decl.get_name().to_string(), desc.1, desc.0, range)
+        } else {
+            LuaSymbol::with_selection_range(
+                decl.get_name().to_string(),
+                desc.1,
+                desc.0,
+                range,
+                decl.get_range(),
+            )
+        };
 
         let symbol_id = builder.add_node_symbol(var.syntax().clone(), symbol, Some(parent_id));
-        let value_expr = exprs.get(index).cloned();
         bindings.push(SymbolBinding {
             symbol_id,
             value_expr,
